@@ -3,7 +3,7 @@ import lib
 from props.C06 import spec_set, name_to_triple
 
 ARCHS = [b"amd64", b"i386", b"hurd-i386"]
-LISTN = [b"amd64", b"i386", b"linux-any", b"any-amd64", b"hurd-any", b"any"]
+LISTN = [b"amd64", b"i386", b"linux-any", b"any-amd64", b"hurd-any", b"any", b"musl-linux-any", b"gnu-linux-any", b"gnu-kfreebsd-any", b"gnu-any-amd64", b"any-linux-any", b"musl-any-any", b"gnu-hurd-i386"]
 
 
 def rand_problem(rng):
